@@ -6,6 +6,8 @@ integers / dyadic rationals and every statement is checked against a magnitude
 bound so that all double arithmetic is exact (exact-mode comparison).
 """
 
+from checks.c01cls import Unsupported, DENSE, Api
+
 SHAPES = [0, 1, 2, 3, 5, 8, 17]
 MAXBITS = 46
 
@@ -40,9 +42,9 @@ class Var:
         k = self.idx
         if self.kind == "v":
             return E("V", self.shape, f"(v {k})", f"S.v[{k}]", f"o_v(S,{k})", self.bound, self.dexp, [self.name],
-                     place=True, porc=f"p_v(X,{k})")
+                     cls=DENSE, place=True, porc=f"p_v(X,{k})")
         return E("M", self.shape, f"({self.kind} {k})", f"S.{self.kind}[{k}]", f"o_{self.kind}(S,{k})",
-                 self.bound, self.dexp, [self.name], cls="dense" + self.kind, place=True,
+                 self.bound, self.dexp, [self.name], cls=DENSE, place=True,
                  porc=f"p_{self.kind}(X,{k})")
 
 
@@ -61,9 +63,20 @@ def tnum(c):
 
 
 class Gen:
-    def __init__(self, rng, ctx=None, maxdepth=3, table=None):
-        self.r, self.ctx, self.maxdepth, self.table = rng, ctx, maxdepth, table
+    def __init__(self, rng, ctx=None, maxdepth=3, calc=None):
+        self.r, self.ctx, self.maxdepth = rng, ctx, maxdepth
+        self.api = Api(calc) if calc is not None else None
         self.vars = []
+        self.unsupported = {}
+
+    def K(self, name, *cls):
+        """class of the expression the public function `name` returns (Unsupported if the
+        library has no such combination)"""
+        if self.api is None:
+            if name in ("range", "row", "col", "diag", "trans", "mrange", "rows", "cols") and cls[0] != DENSE:
+                raise Unsupported("no rule table")
+            return DENSE if all(c == DENSE for c in cls) and name in ("range", "row", "col", "diag", "trans", "mrange", "rows", "cols") else (name,)
+        return getattr(self.api, name)(*cls)
 
     # ------------------------------------------------------------------ case setup
     def new_case(self):
@@ -196,64 +209,85 @@ class Gen:
 
     def mk_range(self, x, s, t):
         return E("V", t - s, f"(range {x.txt} {s} {t})", f"subrange({x.cpp},{s},{t})", f"o_range({x.orc},{s},{t})",
-                 x.bound, x.dexp, x.reads, x.cls, x.place, self._p(x, "p_range", s, t), x.elementwise, x.depth + 1,
+                 x.bound, x.dexp, x.reads, self.K("range", x.cls), x.place, self._p(x, "p_range", s, t), x.elementwise, x.depth + 1,
                  x.ops + ("range",))
 
     def mk_row(self, m, i):
         return E("V", m.shape[1], f"(row {m.txt} {i})", f"row({m.cpp},{i})", f"o_row({m.orc},{i})",
-                 m.bound, m.dexp, m.reads, "dense" if m.place else "?", m.place, self._p(m, "p_row", i),
+                 m.bound, m.dexp, m.reads, self.K("row", m.cls), m.place, self._p(m, "p_row", i),
                  m.elementwise, m.depth + 1, m.ops + ("row",))
 
     def mk_col(self, m, j):
+        if m.ops != ():
+            # column(matrix_expression&&, j) calls a one-argument `column(m())`: it cannot be instantiated,
+            # so `column` exists for l-values (variables) only
+            raise Unsupported("column() of a temporary (r-value overload is ill-formed)")
         return E("V", m.shape[0], f"(col {m.txt} {j})", f"column({m.cpp},{j})", f"o_col({m.orc},{j})",
-                 m.bound, m.dexp, m.reads, "dense" if m.place else "?", m.place, self._p(m, "p_col", j),
+                 m.bound, m.dexp, m.reads, self.K("col", m.cls), m.place, self._p(m, "p_col", j),
                  m.elementwise, m.depth + 1, m.ops + ("col",))
 
     def mk_diag(self, m):
         return E("V", m.shape[0], f"(diag {m.txt})", f"diag({m.cpp})", f"o_diag({m.orc})",
-                 m.bound, m.dexp, m.reads, "dense" if m.place else "?", m.place, self._p(m, "p_diag"),
+                 m.bound, m.dexp, m.reads, self.K("diag", m.cls), m.place, self._p(m, "p_diag"),
                  m.elementwise, m.depth + 1, m.ops + ("diag",))
 
     def mk_trans(self, m):
         return E("M", (m.shape[1], m.shape[0]), f"(trans {m.txt})", f"trans({m.cpp})", f"o_trans({m.orc})",
-                 m.bound, m.dexp, m.reads, m.cls, m.place, self._p(m, "p_trans"), m.elementwise, m.depth + 1,
+                 m.bound, m.dexp, m.reads, self.K("trans", m.cls), m.place, self._p(m, "p_trans"), m.elementwise, m.depth + 1,
                  m.ops + ("trans",))
 
     def mk_mrange(self, m, s1, e1, s2, e2):
         return E("M", (e1 - s1, e2 - s2), f"(mrange {m.txt} {s1} {e1} {s2} {e2})",
                  f"subrange({m.cpp},{s1},{e1},{s2},{e2})", f"o_mrange({m.orc},{s1},{e1},{s2},{e2})",
-                 m.bound, m.dexp, m.reads, m.cls, m.place, self._p(m, "p_mrange", s1, e1, s2, e2), m.elementwise,
+                 m.bound, m.dexp, m.reads, self.K("mrange", m.cls), m.place, self._p(m, "p_mrange", s1, e1, s2, e2), m.elementwise,
                  m.depth + 1, m.ops + ("mrange",))
 
     def mk_rows(self, m, s, e):
         return E("M", (e - s, m.shape[1]), f"(rows {m.txt} {s} {e})", f"rows({m.cpp},{s},{e})",
-                 f"o_rows({m.orc},{s},{e})", m.bound, m.dexp, m.reads, m.cls, m.place,
+                 f"o_rows({m.orc},{s},{e})", m.bound, m.dexp, m.reads, self.K("rows", m.cls), m.place,
                  self._p(m, "p_rows", s, e), m.elementwise, m.depth + 1, m.ops + ("rows",))
 
     def mk_cols(self, m, s, e):
         return E("M", (m.shape[0], e - s), f"(cols {m.txt} {s} {e})", f"columns({m.cpp},{s},{e})",
-                 f"o_cols({m.orc},{s},{e})", m.bound, m.dexp, m.reads, m.cls, m.place,
+                 f"o_cols({m.orc},{s},{e})", m.bound, m.dexp, m.reads, self.K("cols", m.cls), m.place,
                  self._p(m, "p_cols", s, e), m.elementwise, m.depth + 1, m.ops + ("cols",))
 
     def node(self, kind, shape, op, txt, cpp, orc, bound, dexp, kids, elementwise=True):
+        kname = {"addc": "add", "maddc": "madd", "abs": "un", "sqr": "un", "neg": "smul", "mul": "bin", "div": "bin",
+                 "min": "bin", "max": "bin"}.get(op, op)
+        if kind == "M" and kname in ("un", "bin", "smul"):
+            kname = "m" + kname
+        kcls = [k.cls for k in kids]
+        if op == "addc":
+            kcls.append(self.K("cvec"))
+        if op == "maddc":
+            kcls.append(self.K("cmat"))
+        if op == "vm":
+            kcls = [kids[1].cls, kids[0].cls]
+        cls = self.K(kname, *kcls)
         reads = set()
         for k in kids:
             reads |= k.reads
         ew = elementwise and all(k.elementwise for k in kids)
         ops = sum((k.ops for k in kids), ()) + (op,)
-        return E(kind, shape, txt, cpp, orc, bound, dexp, reads, op, False, None, ew,
+        return E(kind, shape, txt, cpp, orc, bound, dexp, reads, cls, False, None, ew,
                  1 + max([k.depth for k in kids] + [0]), ops)
 
     # ------------------------------------------------------------------ expressions
     def gen_v(self, n, depth, divisor=False):
         r = self.r
         for _ in range(20):
-            e = self._gen_v(n, depth, divisor)
+            try:
+                e = self._gen_v(n, depth, divisor)
+            except Unsupported as u:
+                k = str(u)[:70]
+                self.unsupported[k] = self.unsupported.get(k, 0) + 1
+                e = None
             if e is not None and e.bits() <= MAXBITS:
                 return e
             depth = max(0, depth - 1)
         c = 1
-        return E("V", n, f"(cvec {n} {c})", f"blas_cvec({n},{cnum(c)})", f"o_cvec({n},{cnum(c)})", 1, 0, [], "const")
+        return E("V", n, f"(cvec {n} {c})", f"blas_cvec({n},{cnum(c)})", f"o_cvec({n},{cnum(c)})", 1, 0, [], self.K("cvec"))
 
     def _gen_v(self, n, depth, divisor):
         r = self.r
@@ -277,11 +311,23 @@ class Gen:
             if x < 9 or n == 0:
                 c = self.const()
                 return E("V", n, f"(cvec {n} {tnum(c)})", f"blas_cvec({n},{cnum(c)})", f"o_cvec({n},{cnum(c)})",
-                         self.cbound(c), self.cdexp(c), [], "const", ops=("cvec",))
+                         self.cbound(c), self.cdexp(c), [], self.K("cvec"), ops=("cvec",))
             k = r.below(n); c = r.choice([1, 2, -3])
             return E("V", n, f"(unit {n} {k} {c})", f"blas_unit({n},{k},{cnum(c)})", f"o_unit({n},{k},{cnum(c)})",
-                     abs(c), 0, [], "unit", ops=("unit",))
+                     abs(c), 0, [], self.K("unit"), ops=("unit",))
         d = depth - 1
+        if self.api is not None and r.chance(1, 4):
+            # proxy of an expression: goes through the rewrite-rule table
+            y = r.below(4)
+            if y == 0:
+                extra = r.range(0, 3); s0 = r.range(0, extra)
+                return self.mk_range(self.gen_v(n + extra, d), s0, s0 + n)
+            k = self.dim()
+            if y == 1 and k > 0:
+                return self.mk_row(self.gen_m(k, n, d), r.below(k))
+            if y == 2 and k > 0:
+                return self.mk_col(self.gen_m(n, k, d), r.below(k))
+            return self.mk_diag(self.gen_m(n, n, d))
         x = r.below(100)
         if x < 10:
             c = self.const(); a = self.gen_v(n, d)
@@ -356,11 +402,16 @@ class Gen:
 
     def gen_m(self, n1, n2, depth, divisor=False):
         for _ in range(20):
-            e = self._gen_m(n1, n2, depth, divisor)
+            try:
+                e = self._gen_m(n1, n2, depth, divisor)
+            except Unsupported as u:
+                k = str(u)[:70]
+                self.unsupported[k] = self.unsupported.get(k, 0) + 1
+                e = None
             if e is not None and e.bits() <= MAXBITS:
                 return e
             depth = max(0, depth - 1)
-        return E("M", (n1, n2), f"(cmat {n1} {n2} 1)", f"blas_cmat({n1},{n2},1.0)", f"o_cmat({n1},{n2},1.0)", 1, 0, [], "const")
+        return E("M", (n1, n2), f"(cmat {n1} {n2} 1)", f"blas_cmat({n1},{n2},1.0)", f"o_cmat({n1},{n2},1.0)", 1, 0, [], self.K("cmat"))
 
     def _gen_m(self, n1, n2, depth, divisor):
         r = self.r
@@ -378,8 +429,20 @@ class Gen:
                     return p
             c = self.const()
             return E("M", (n1, n2), f"(cmat {n1} {n2} {tnum(c)})", f"blas_cmat({n1},{n2},{cnum(c)})",
-                     f"o_cmat({n1},{n2},{cnum(c)})", self.cbound(c), self.cdexp(c), [], "const", ops=("cmat",))
+                     f"o_cmat({n1},{n2},{cnum(c)})", self.cbound(c), self.cdexp(c), [], self.K("cmat"), ops=("cmat",))
         d = depth - 1
+        if self.api is not None and r.chance(1, 4):
+            y = r.below(4)
+            if y == 0:
+                return self.mk_trans(self.gen_m(n2, n1, d))
+            if y == 1:
+                a1, a2 = r.range(0, 2), r.range(0, 2); s1, s2 = r.range(0, a1), r.range(0, a2)
+                return self.mk_mrange(self.gen_m(n1 + a1, n2 + a2, d), s1, s1 + n1, s2, s2 + n2)
+            if y == 2:
+                a1 = r.range(0, 3); s1 = r.range(0, a1)
+                return self.mk_rows(self.gen_m(n1 + a1, n2, d), s1, s1 + n1)
+            a2 = r.range(0, 3); s2 = r.range(0, a2)
+            return self.mk_cols(self.gen_m(n1, n2 + a2, d), s2, s2 + n2)
         x = r.below(100)
         sh = (n1, n2)
         if x < 10:
@@ -469,7 +532,7 @@ class Gen:
             if form == "divide":
                 cand = self.gen_v(t.shape, min(depth, 1), divisor=True) if t.kind == "V" else \
                     self.gen_m(t.shape[0], t.shape[1], min(depth, 1), divisor=True)
-                if cand is None or "const" == cand.cls:
+                if cand is None or cand.cls[0] in ("scalar_vector", "scalar_matrix"):
                     form = "times"; continue
             else:
                 cand = self.gen_v(t.shape, depth) if t.kind == "V" else self.gen_m(t.shape[0], t.shape[1], depth)
